@@ -346,6 +346,10 @@ def answer (kind : String) (payload : List Sx) : String :=
        let (o, st) := execute (decCtx c) e
        "(res " ++ encOutcome encValue o ++ " " ++ encLog st.log ++ ")"
      | none => "(res (compile-error) (log))")
+  | "c01", [.atom src] =>
+    (match Parser.compile (atomStr src) with
+     | some e => "(c01 (ast " ++ encExpr e ++ ") ok)"
+     | none => "(c01 (reject) ok)")
   | "compile", [.atom src] =>
     (match Parser.compile (atomStr src) with
      | some e => "(ast " ++ encExpr e ++ ")"
